@@ -566,3 +566,59 @@ func oracleSendError(c *Ctx, sc *SmtpScenario, run *SmtpRun) {
 		c.Violate("c20-joined", fmt.Sprintf("%d message(s) carry an error but the call returned nil", failedMsgs), sc)
 	}
 }
+
+
+// oracleWaits (C17): how many times ONE public call waited a full timeout. In the virtual time of the scripted
+// peer a read on a silent server returns at once; it stands for a wait of the whole timeout when the deadline had
+// been armed afresh since the previous wait (an expired deadline that nobody re-armed makes every further
+// operation fail immediately). A call that waits twice returns after twice the configured timeout.
+func oracleWaits(c *Ctx, sc *SmtpScenario, run *SmtpRun) {
+	c.rep.OracleChecked++
+	call, waits, fresh := "", 0, true
+	firstAt := "" // where the first wait of the call happened
+	last := ""    // the last thing the client did before a wait
+	var tail []string
+	flush := func() {
+		if call == "" || waits < 2 {
+			return
+		}
+		if strings.HasPrefix(call, "DialAndSend") && waits == 2 && (firstAt == "NOOP" || firstAt == "RSET" || firstAt == "eod") {
+			// known finding: the send runs into the timeout at the connection check, at end-of-data or at the RSET
+			// after a message, the connection stays usable in the client's eyes, and the deferred close arms a new
+			// deadline for its QUIT and waits once more
+			c.Violate("c17-dialandsend-twice-the-timeout", fmt.Sprintf("%s waited twice a full timeout: the server fell silent at %s, then the QUIT of the deferred close waited again (the call returns after 2 x the configured timeout)", call, firstAt), sc)
+			return
+		}
+		c.Violate("c17-more-than-one-timeout", fmt.Sprintf("%s waited %d times a full timeout on the silent server (first at %s; the deadline was armed afresh before each wait): it returns after %d times the configured timeout; dialogue: %v", call, waits, firstAt, waits, tail), sc)
+	}
+	for _, e := range run.Events {
+		if e.Kind == "cmd" {
+			tail = append(tail, verbOf(e.Line))
+		} else if e.Kind == "deadline" || e.Kind == "stall-armed" || e.Kind == "close" || e.Kind == "eod" {
+			tail = append(tail, e.Kind)
+		}
+		if len(tail) > 14 {
+			tail = tail[1:]
+		}
+		switch e.Kind {
+		case "api":
+			flush()
+			call, waits, firstAt = e.Line, 0, ""
+		case "cmd":
+			last = verbOf(e.Line)
+		case "eod":
+			last = "eod"
+		case "deadline":
+			fresh = true
+		case "stall-armed":
+			if fresh {
+				waits++
+				if waits == 1 {
+					firstAt = last
+				}
+			}
+			fresh = false
+		}
+	}
+	flush()
+}
